@@ -22,7 +22,11 @@ Record dstate := {
   vsnap : alist value;                            (* variableSnapshot *)
   fe : fenv;                                      (* RNG stream and host log *)
   sched : list (nat * cresult);                   (* completion schedule of the host commands to come *)
-  hcmds : list str                                (* names registered with AddCommand by the host *)
+  hcmds : list str;                               (* names registered with AddCommand by the host *)
+  (* ghost history, not in the Go code: the nodes left by successful jumps since the last restore
+     (newest first) and the visit counts at that restore; used to state C11 *)
+  jlog : list str;
+  vbase : alist Z
 }.
 
 Record rstate := {
@@ -33,15 +37,15 @@ Record rstate := {
 
 Definition upd_fe (s : dstate) (e : fenv) : dstate :=
   {| vars := vars s; slog := slog s; pending := pending s;
-     cur := cur s; visits := visits s; vsnap := vsnap s; fe := e; sched := sched s; hcmds := hcmds s |}.
+     cur := cur s; visits := visits s; vsnap := vsnap s; fe := e; sched := sched s; hcmds := hcmds s; jlog := jlog s; vbase := vbase s |}.
 
 Definition upd_pending (s : dstate) (p : option (nat * cresult)) : dstate :=
   {| vars := vars s; slog := slog s; pending := p;
-     cur := cur s; visits := visits s; vsnap := vsnap s; fe := fe s; sched := sched s; hcmds := hcmds s |}.
+     cur := cur s; visits := visits s; vsnap := vsnap s; fe := fe s; sched := sched s; hcmds := hcmds s; jlog := jlog s; vbase := vbase s |}.
 
 Definition upd_vars (s : dstate) (v : store) (ev : sevent) : dstate :=
   {| vars := v; slog := ev :: slog s; pending := pending s;
-     cur := cur s; visits := visits s; vsnap := vsnap s; fe := fe s; sched := sched s; hcmds := hcmds s |}.
+     cur := cur s; visits := visits s; vsnap := vsnap s; fe := fe s; sched := sched s; hcmds := hcmds s; jlog := jlog s; vbase := vbase s |}.
 
 Definition renv_of (s : dstate) : renv := {| rvars := vars s; rvisits := visits s |}.
 
@@ -164,7 +168,8 @@ Definition exec_jump (d : dialogue) (e : expr) (s : dstate) : option (list stmt)
           (Some (body n),
            {| vars := vars s1; slog := slog s1; pending := pending s1; cur := title n;
               visits := if tracked d (cur s1) then bump (visits s1) (cur s1) else visits s1;
-              vsnap := st_values (vars s1); fe := fe s1; sched := sched s1; hcmds := hcmds s1 |})
+              vsnap := st_values (vars s1); fe := fe s1; sched := sched s1; hcmds := hcmds s1;
+              jlog := cur s1 :: jlog s1; vbase := vbase s1 |})
       | None => (None, s1)
       end
   | (_, s1) => (None, s1)
@@ -203,7 +208,7 @@ Definition exec_command (es : list expr) (s : dstate) : cmd_result * dstate :=
           let s2 := {| vars := vars s1; slog := slog s1;
                        pending := match polls with O => None | S k => Some (k, r) end;
                        cur := cur s1; visits := visits s1; vsnap := vsnap s1; fe := e2;
-                       sched := tl (sched s1); hcmds := hcmds s1 |} in
+                       sched := tl (sched s1); hcmds := hcmds s1; jlog := jlog s1; vbase := vbase s1 |} in
           match polls, r with
           | O, CNil => (CmdDone, s2)
           | O, CErr => (CmdErr, s2)
@@ -342,7 +347,7 @@ Definition restore_at (d : dialogue) (s : rstate) (sn : snapshot) : bool * rstat
                 {| vars := fold_left (fun st kv => st_set st (fst kv) (snd kv)) (svars sn) empty_store;
                    slog := rev (restore_sets (svars sn)) ++ SClearAll :: slog ds;
                    pending := None; cur := title n; visits := svisits sn; vsnap := svars sn;
-                   fe := fe ds; sched := sched ds; hcmds := hcmds ds |})
+                   fe := fe ds; sched := sched ds; hcmds := hcmds ds; jlog := []; vbase := svisits sn |})
   end.
 
 (* NewDialogueRunner on an already parsed dialogue *)
@@ -353,5 +358,6 @@ Definition new_runner (d : dialogue) (init : store) (stream : list Z) (sc : list
   | n :: _ => Some (mk [body n] None
                        {| vars := init; slog := []; pending := None;
                           cur := title n; visits := []; vsnap := st_values init;
-                          fe := {| rng := stream; hlog := [] |}; sched := sc; hcmds := cmds |})
+                          fe := {| rng := stream; hlog := [] |}; sched := sc; hcmds := cmds;
+                          jlog := []; vbase := [] |})
   end.
